@@ -24,7 +24,8 @@ ASSUMPTIONS = ["monodisperse spherically symmetric models: sphere, core_shell_sp
 REQUIRED_MONITORS = ["F1sq_le_F2", "I_equals_scale_F2_over_V", "lowq_equality_mono", "spherical_equality_mono",
                      "volume_sphere_mode", "modes_positive_finite"]
 REQUIRED_BUCKETS = {"quick": ["pd:off", "pd:on", "mesh>100", "mode:volume-sphere", "hollow", "lane:asan", "zero-default-length-switched-on", "mesh-crosses-validity-condition",
-                              "after-product-built-with-this-form-factor"]}
+                              "after-product-built-with-this-form-factor", "special:lengths-exactly-equal",
+                              "special:equal-lengths-with-equal-dispersity", "entry:2d-with-orientation-spread"]}
 REQUIRED_BUCKETS["thorough"] = REQUIRED_BUCKETS["quick"]
 SPHERICAL = ["sphere", "core_shell_sphere", "fuzzy_sphere", "core_multi_shell", "onion", "spherical_sld", "vesicle",
              "multilayer_vesicle"]
@@ -44,6 +45,26 @@ def gen_cases(tier, seed):
     for m in fq_models():
         for k in range(n):
             cases.append({"id": "%s/%03d" % (m, k), "model": m, "k": k, "seed": seed, "group": m, "lane": "plain"})
+    # special shapes: two (or all) radii exactly equal - a shape with an extra symmetry is still a shape
+    for m in fq_models():
+        i_ = sas.info(m)
+        if not i_.radius_effective_modes:
+            continue
+        lens = [p.name for p in i_.parameters.kernel_parameters if p.type == "volume" and p.length == 1 and p.units == "Ang"
+                and "ratio" not in p.name]          # (some ratios are declared with a length unit)
+        groups = [[a, b] for ia, a in enumerate(lens) for b in lens[ia + 1:]]
+        rad = [a for a in lens if a.startswith("radius")]
+        if len(rad) >= 3:
+            groups.append(rad)
+        cap = 4 if tier == "quick" else 1000
+        rot = seed % max(len(groups), 1)
+        chosen = (groups[rot:] + groups[:rot])[:cap]
+        if len(rad) >= 3 and rad not in chosen:
+            chosen.append(rad)
+        for j, g in enumerate(chosen):
+            for kk in ((0, 1) if tier == "quick" else range(6)):
+                cases.append({"id": "%s/eq-%s-%d" % (m, "-".join(g), kk), "model": m, "k": 300 + 2*j + kk + (0 if kk < 2 else 100*kk), "seed": seed,
+                              "group": "%s/eq%d" % (m, j), "lane": "plain", "equal": g})
     for m in (["cylinder", "core_shell_parallelepiped", "hollow_cylinder", "vesicle"] if tier == "quick" else fq_models()):
         cases.append({"id": "asan/%s" % m, "model": m, "k": 1000, "seed": seed, "group": "asan-" + m, "lane": "asan", "cost": 4})
     return cases
@@ -56,12 +77,6 @@ def run_case(case, rec):
     rng = core.rng_for(case["seed"], PROP, name, case["k"])
     k = case["k"]
     pars = sas.base_pars(i, case["seed"]*977 + k, style="default" if k == 0 else "wide" if k % 3 == 2 else "random")
-    if name == "hollow_rectangular_prism":
-        # generator hygiene: the wall cannot be thicker than half the shortest side (documented constraint of the
-        # model; the wide parameter style draws the ratios independently of the thickness)
-        side = pars["length_a"]*min(1.0, pars["b2a_ratio"], pars["c2a_ratio"])
-        if 2.0*pars["thickness"] >= 0.95*side:
-            pars["thickness"] = 0.2*side
     # length parameters that default to zero switch a feature on (interfacial roughness, ...); the generic
     # generator leaves them near zero, so every third case sets them to a few percent of the particle size
     if k % 3 == 1:
@@ -71,10 +86,32 @@ def run_case(case, rec):
                     and not np.isfinite(p_.limits[1]):
                 pars[p_.name] = float(rng.uniform(0.02, 0.2))*sz
                 rec.bucket("zero-default-length-switched-on")
+    eq = case.get("equal")
+    if eq:
+        v0 = pars[eq[0]]
+        if all(i.parameters[b].limits[0] <= v0 <= i.parameters[b].limits[1] for b in eq[1:]):
+            for b in eq[1:]:
+                pars[b] = v0
+            rec.bucket("special:lengths-exactly-equal")
+    if name == "hollow_rectangular_prism":
+        # generator hygiene: the wall cannot be thicker than half the shortest side (documented constraint of the
+        # model; the wide parameter style draws the ratios independently of the thickness)
+        side = pars["length_a"]*min(1.0, pars["b2a_ratio"], pars["c2a_ratio"])
+        if 2.0*pars["thickness"] >= 0.95*side:
+            pars["thickness"] = 0.2*side
     # make rim/shell parameters asymmetric so that swapped arguments show
     pd_on = (k % 2 == 1)
     meshn = 1
-    if pd_on:
+    if pd_on and eq:
+        # the same relative distribution on the equal lengths: the diagonal mesh points are the symmetric shapes
+        n_ = int(rng.integers(3, 6))
+        w_ = float(rng.uniform(0.05, 0.15))
+        for b in eq:
+            if i.parameters[b].polydisperse:
+                sas.add_pd(pars, i.parameters[b], "gaussian", n_, w_, 2.0)
+                meshn *= n_
+        rec.bucket("special:equal-lengths-with-equal-dispersity")
+    elif pd_on:
         cand = [p for p in sas.usable_pd(i, pars, "1d")]
         rng.shuffle(cand)
         sizes = [[11, 10], [7], [15, 8], [4, 3]][(k//2) % 4]
@@ -166,6 +203,33 @@ def run_case(case, rec):
                           dict(c, ratio_F1sq_F2=r, q_size=qs))
             if name in SPHERICAL:
                 rec.check("spherical_equality_mono", core.close(F1**2, F2, 1e-10, 1e-12*float(np.max(F2))), c)
+    # the same (shape-monodisperse) particles seen through the 2-D entry with a spread of orientations: the
+    # reported radius and volumes are those of the particle
+    angs = [p_.name for p_ in i.parameters.orientation_parameters]
+    if mono and angs and modes and k % 2 == 0:
+        qx, qy = sas.q_points_2d(i, pars, 3, rng)
+        kern2 = model.make_kernel([qx, qy])
+        p2 = dict(pars)
+        for a_ in angs:
+            p2[a_] = float(rng.uniform(-80, 80))
+        jit_ = angs[:int(rng.integers(1, len(angs) + 1))]
+        for a_ in jit_:
+            p2.update({a_ + "_pd": float(rng.uniform(5, 35)), a_ + "_pd_n": int(rng.integers(3, 8)),
+                       a_ + "_pd_nsigma": 1.6, a_ + "_pd_type": ["gaussian", "rectangle", "uniform"][int(rng.integers(3))]})
+        ref_ = {}
+        for mode in range(1, maxmode + 1):
+            _f1, _f2, R1, Vs1, ratio1 = direct_model.call_Fq(kernel, dict(pars, radius_effective_mode=mode))
+            _g1, _g2, R2, Vs2, ratio2 = direct_model.call_Fq(kern2, dict(p2, radius_effective_mode=mode))
+            c2 = dict(ctx, mode=mode, mode_name=modes[mode-1], entry="2-D q with orientation spread on " + ",".join(jit_),
+                      pars_2d=p2, R=R2, V_shell=Vs2, ratio=ratio2, R_1d=R1, V_shell_1d=Vs1)
+            rec.check("modes_positive_finite", bool(np.isfinite(R2) and R2 > 0 and np.isfinite(Vs2) and Vs2 > 0
+                                                    and np.isfinite(ratio2) and ratio2 > 0), c2)
+            if "volume sphere" in modes[mode-1].lower():
+                Vf2 = Vs2*ratio2
+                rec.check("volume_sphere_mode", abs(4.0/3.0*math.pi*R2**3 - Vf2) <= 1e-10*Vf2,
+                          dict(c2, sphere_volume=4.0/3.0*math.pi*R2**3, V_form=Vf2))
+        kern2.release()
+        rec.bucket("entry:2d-with-orientation-spread")
     # a result set that was handed out stays consistent when the same kernel is used again with other values
     # (the outputs must not be views of a buffer the next call rewrites)
     other = {kk: (vv*1.3 if kk in {p_.name for p_ in i.parameters.kernel_parameters if p_.type == "volume" and p_.units == "Ang"}
